@@ -21,6 +21,7 @@ def value_corpus(F, tier, name):
     recs += gen.g_lo_ones(F, rng, tier)
     recs += gen.g_tie_digit_counts(F, rng, tier)
     recs += gen.g_disguised_wrap(F, rng, tier)
+    recs += gen.g_short_eighths(F, rng, tier)
     recs += gen.g_budget_splits(F, rng, tier)[:: 3 if q else 1]
     recs += gen.g_extremes(F, rng, big=20000 if q else 1000000)
     recs += gen.g_runs(F, rng, 80 if q else 3000)
@@ -59,7 +60,7 @@ def c01(tier):
              "truncations), G13 (carry into the next binade incl. subnormal -> normal), G14 (d x 10^q for every q), G15 (exact "
              "64-bit products w x 5^q with forced low-bit patterns), G16 (first product's low word all ones), G17 (exact "
              "ties for every digit count and both ends of a decade), G18 (disguised fast path: scaled significand wraps), "
-             "G19 (decimal point at every position next to the digit budget); "
+             "G19 (decimal point at every position next to the digit budget), G20 (short exact values at r/8 of an ulp, three spellings); "
              "distinct = distinct (int,frac,exp) triples; "
              "every record is adjudicated by TLC with IEEE!Judge",
         level_note="TLC evaluates the declarative rounding definition (IEEE.tla) on each (input, bits) pair observed "
@@ -1173,7 +1174,7 @@ def c16(tier):
                                                   for k, o in enumerate(core.read_ndjson(hi_out))]})
         # sequential thread "0": every shape on every input, after stack poisoning
         seq_events = []
-        for shape in range(7):
+        for shape in range(9):
             si = os.path.join(wd, "in-shape%d.ndjson" % shape)
             core.write_ndjson(si, [dict({k: v for k, v in r.items() if k != "tag"}, shape=shape) for r in inputs])
             so = os.path.join(wd, "out-shape%d-%s.ndjson" % (shape, cfg.replace("+", "_")))
@@ -1227,12 +1228,13 @@ def c16(tier):
     cov = {
         "states": mc.distinct + tstates, "transitions": mc.generated + ttrans,
         "traces_validated_against_impl": len(cfgs) * (2 * nthreads + 3), "evaluations": nevents, "histories": len(hist_ids),
-        "distinct_nontrivial": len(inputs) * 7,
+        "distinct_nontrivial": len(inputs) * 9,
         "rule": "MC_Calls: 3 threads x 2 inputs x every initial stack content x every interleaving, up to 2 calls per thread; the four "
                 "failure designs (shared scratch buffer, length set before the cells are written, per-thread and global one-entry "
                 "memo keyed by a prefix of the input) must each violate an invariant. "
-                "CF: every input x 7 iterator shapes (slice, chain, filter, skip/step_by, VecDeque ring, hand-written iterator with "
-                "size_hint (0,None), rev.rev) after stack-poisoning calls, plus 8 concurrent threads each walking all inputs in its own "
+                "CF: every input x 9 iterator shapes (slice, chain, filter, skip/step_by, VecDeque ring, hand-written iterator with "
+                "size_hint (0,None), rev.rev, and two NON-FUSED ones that would yield more bytes if polled after None: hand-written and map_while"
+                ") after stack-poisoning calls, plus 8 concurrent threads each walking all inputs in its own "
                 "order with rotating shapes; histories of RELATED inputs back to back on one thread (19-digit prefix / just below / "
                 "exact tie / just above a midpoint, exponent one off, other float format); the CF_Calls trace specification enables "
                 "Return only for baseline[input], and the baseline is what a FRESH PROCESS returns for that input alone",
